@@ -103,7 +103,10 @@ def exec_for(ex, s: ast.For, st: State) -> list[State]:
     if s.orelse:
         raise Unsupported('for/else')
     ordinal = ex.loop_ids[id(s)]
+    named_heap(st)
     it = ex.ev(s.iter, st)
+    if it.kind in ('ref', 'val'):
+        it = st.name_sv(it)
     src = _iter_source(ex, it, st)
     if src[0] == 'static':
         states = [st]
@@ -121,7 +124,7 @@ def exec_for(ex, s: ast.For, st: State) -> list[State]:
     tag = 'loop%d' % ordinal
     kind = src[0]
     cont = src[1]
-    h_entry = st.h
+    h_entry = named_heap(st)
 
     def length(hh):
         return hh.len(cont) if kind == 'list' else hh.size(cont)
@@ -166,6 +169,7 @@ def exec_for(ex, s: ast.For, st: State) -> list[State]:
     mod_locals |= {n.id for n in ast.walk(s.target) if isinstance(n, ast.Name)}
 
     def lctx(stx: State, i, done):
+        named_heap(stx)
         return LCtx(ex.h0, stx.h, ex.args, ex.ghosts, h_entry, i, done, cont, stx.locals, outer,
                     extra={'kind': kind, 'ret_name': ret_name(ex),
                            'assigned': sorted(_assigned_names(s.body) - {n.id for n in ast.walk(s.target) if isinstance(n, ast.Name)})})
@@ -187,6 +191,9 @@ def exec_for(ex, s: ast.For, st: State) -> list[State]:
     # --- arbitrary iteration
     head = st.fork()
     _havoc_into(ex, head, mod_arr, mod_alloc, mod_locals, st, tag)
+    if 'L_bag' in mod_arr:
+        for f in list_axioms(head.h):
+            head.assume(f)
     for n, ty in spec.locals_ty.items():
         if n not in head.locals:
             head.locals[n] = _fresh_like(ex, from_sort(ex.fresh(ty.sort, n), ty), n, head)
@@ -194,6 +201,9 @@ def exec_for(ex, s: ast.For, st: State) -> list[State]:
     done = ex.fresh(BagSort, 'done')
     dv = z3.Const('v!dn', Val)
     head.assume(z3.ForAll([dv], z3.Select(done, dv) >= 0, patterns=[z3.Select(done, dv)]))
+    if spec.stable_iter and kind == 'list':
+        # list-theory facts about the processed prefix of an unmodified list: done <= bag
+        head.assume(z3.ForAll([dv], z3.Select(done, dv) <= h_entry.bag(cont, dv), patterns=[z3.Select(done, dv)]))
     c_head = lctx(head, i, done)
     for (nm, f) in auto_inv(head, i) + list(spec.inv(c_head)):
         head.assume(f)
@@ -201,6 +211,8 @@ def exec_for(ex, s: ast.For, st: State) -> list[State]:
     body = head.fork()
     body.assume(i < length(body.h))
     elv, el = element(body, i)
+    if spec.stable_iter and kind == 'list':
+        body.assume(z3.Select(done, elv) + 1 <= h_entry.bag(cont, elv))      # the current element is not in the prefix count
     ex.bind_target(s.target, el, body)
     fr = LoopFrame()
     ex.loop_frames.append(fr)
@@ -237,7 +249,7 @@ def exec_while(ex, s: ast.While, st: State) -> list[State]:
         raise Unsupported('loop %d has no invariant in the contract' % ordinal)
     from .symexec import LoopFrame
     tag = 'loop%d' % ordinal
-    h_entry = st.h
+    h_entry = named_heap(st)
 
     def run_body_from(stx):
         c = ex.truthy(ex.ev(s.test, stx), stx)
@@ -251,12 +263,16 @@ def exec_while(ex, s: ast.While, st: State) -> list[State]:
     outer = ex.loop_ctx_stack[-1] if ex.loop_ctx_stack else None
 
     def lctx(stx):
+        named_heap(stx)
         return LCtx(ex.h0, stx.h, ex.args, ex.ghosts, h_entry, None, None, None, stx.locals, outer, extra={'ret_name': ret_name(ex)})
 
     for (nm, f) in spec.inv(lctx(st)):
         ex.oblige('%s.inv.init.%s' % (tag, nm), st, f, 'inv.init')
     head = st.fork()
     _havoc_into(ex, head, mod_arr, mod_alloc, mod_locals, st, tag)
+    if 'L_bag' in mod_arr:
+        for f in list_axioms(head.h):
+            head.assume(f)
     for (nm, f) in spec.inv(lctx(head)):
         head.assume(f)
     body = head.fork()
